@@ -205,9 +205,24 @@ pub fn verif_walk_filter_map<F: FnMut(Result<ignore::DirEntry, ignore::Error>) -
 { unimplemented!() }
 
 // ---- M2: specification, from the statements of C15 / C20 ------------------------------------------------
-/// a repository root: a directory that has a `.git` or a `.hg` DIRECTORY in it
+/// C15 "wherever blockwatch is started inside the repository": a repository root is a directory that has a
+/// `.git` ENTRY - a directory in a plain clone, a FILE in a linked worktree or a submodule - or a `.hg` directory
 pub open spec fn is_repo_root(p: PathBuf) -> bool {
-    is_dir_spec(path_join_spec(p, ".git"@)) || is_dir_spec(path_join_spec(p, ".hg"@))
+    exists_spec(path_join_spec(p, ".git"@)) || is_dir_spec(path_join_spec(p, ".hg"@))
+}
+
+/// T-std (docs of `Path::is_dir` / `Path::is_file`: "Returns true if the path exists on disk and is pointing at a
+/// directory / a regular file"): what is a directory or a file exists.
+pub broadcast axiom fn axiom_dir_or_file_exists(p: PathBuf)
+    ensures (#[trigger] is_dir_spec(p) ==> exists_spec(p)) && (#[trigger] is_file_spec(p) ==> exists_spec(p)); // [M2.axiom.dir_or_file_exists]
+
+/// both layouts count: `.git` as a directory (plain clone) and `.git` as a file (linked worktree, submodule)
+pub proof fn lemma_git_directory_or_file_counts(p: PathBuf)
+    ensures
+        is_dir_spec(path_join_spec(p, ".git"@)) ==> is_repo_root(p), // [M2.lemma.git_directory_counts]
+        is_file_spec(path_join_spec(p, ".git"@)) ==> is_repo_root(p), // [M2.lemma.git_file_counts]
+{
+    axiom_dir_or_file_exists(path_join_spec(p, ".git"@));
 }
 
 /// `root` is the NEAREST ancestor of `start` (the path itself included) that is a repository root
